@@ -127,7 +127,13 @@ def _run_chunk(args):
         if time.time() > deadline:
             break
         rng = random.Random(derive_seed(verif_seed, prop.ID, idx))
-        scenario = jsonable(prop.generate(rng, tier, idx))
+        try:
+            scenario = jsonable(prop.generate(rng, tier, idx))
+        except Exception as e:      # a generator bug is a harness error of that run, not a dead worker
+            agg['done'] += 1
+            if len(agg['harness']) < 3:
+                agg['harness'].append({'index': idx, 'error': 'generate: ' + ''.join(traceback.format_exception(type(e), e, e.__traceback__))[-1200:]})
+            continue
         out = safe_execute(prop, scenario)
         agg['done'] += 1
         he = getattr(out, 'harness_error', None)
